@@ -332,6 +332,8 @@ def call_msg(rig, op):
                 args = ()
             elif shape == "posargs":
                 args = ("m%d %%s" % cid, "arg")
+            elif shape == "posargs2":
+                args = ("m%d %%s and %%d" % cid, "arg", 7)
             reprok = repr_ok(kw, args)
             r = L.msg(*args, **kw)
         elif kind == "bad":
